@@ -655,21 +655,13 @@ def resolve_pending(R, hits, pending, stage_ok):
     bit in both orders (every stage of compare_pair agreed).  (b) separates the recorded defect of the algorithm
     from a changed implementation that loses vertices on the same class of inputs.  Everything else is a violation."""
     kf = [k for k in R.known if k.get("id") == "F26"]
-    kf_raise = [k for k in R.known if "AssertionError" in k.get("match", "")]
     for p in pending:
         key = p["key"]
         reproduced = key is not None and stage_ok.get((key, "o12")) is True and stage_ok.get((key, "o21")) is True
         if p.get("raised"):
-            # the point buffer of intersect_halfplanes (3n rows) is exhausted: attributed to the recorded defect only if
-            # the binary64 model of the recorded algorithm ends in the same assertion on the implementation's halfplanes
-            # (checked stage by stage in compare_pair) and the face lines are coincident / concurrent
-            degenerate = p["plane"] is not None and finite(p["plane"]) and \
-                (hg.concurrent_lines(p["t1"], p["t2"], p["plane"]) or len(hg.exact_polygon(p["t1"], p["t2"], p["plane"])) < 3)
-            if kf_raise and reproduced and degenerate:
-                hits[0] += 1
-                R.known_finding(kf_raise[0]["id"], kf_raise[0].get("what", p["what"])[:300])
-            else:
-                R.failure(p["what"] + ("" if reproduced else " [not reproduced by the binary64 model]"), p["case"], site=p["site"])
+            # since /repo f6c3926 (F28) the point buffer has one row per pair and the model proves the function total
+            # (C15_intersect_halfplanes_total): an AssertionError is always a failure
+            R.failure(p["what"], p["case"], site=p["site"])
             continue
         if kf and reproduced and hg.concurrent_lines(p["t1"], p["t2"], p["plane"]):
             hits[0] += 1
@@ -1216,10 +1208,8 @@ def compare_pair(m, c, ro, ta, ea, tb, eb, Ea, Eb, stats, branch):
     if "pts" in ro or "pts_exc" in ro:
         stats["bit_exact_stage_comparisons"] += 1
         if "pts_exc" in ro:
-            tick("intersect_halfplanes: point buffer exhausted (assertion)")
-            # compiled code does not check array bounds: an overflow of the 3n rows (model: EIndex) also ends in the assertion
-            if iso[5] not in ([[-102.0]], [[-101.0]]):
-                diffs.append(f"intersect_halfplanes: implementation raised AssertionError, model {iso[5]}")
+            # cannot happen any more (one buffer row per pair of halfplanes; C15_intersect_halfplanes_total)
+            diffs.append(f"intersect_halfplanes: implementation raised AssertionError, model {iso[5]}")
         elif not same_bits(iso[5], ro["pts"]):
             diffs.append(f"intersect_halfplanes (on the implementation's halfplanes): model {iso[5]} implementation {ro['pts']}")
         tick("intersect_halfplanes: %d points" % len(ro.get("pts", [])))
